@@ -362,6 +362,8 @@ def _step(s: Store, op: dict, exc_log: list):
                 h += [1] * h.shape[0]
             elif what == "sub_array":
                 h - np.ones(h.shape)
+            elif what == "imul_overflow":
+                h *= 1e200        # the square of the factor is not a finite double: python raises OverflowError
             else:
                 raise KeyError(what)
             exc_log.append(f"invalid:{what} was ACCEPTED")
